@@ -895,8 +895,8 @@ impl World for C11 {
     }
     fn default_runs(&self, tier: Tier) -> u64 {
         match tier {
-            Tier::Quick => 400_000,
-            Tier::Thorough => 20_000_000,
+            Tier::Quick => 1_500_000,
+            Tier::Thorough => 60_000_000,
         }
     }
     fn generate(&self, rng: &mut Rng, tier: Tier) -> IntegScn {
